@@ -140,3 +140,15 @@ func (v *VerifStores) VerifSyncedToHeight() []byte {
 }
 
 func (v *VerifStores) VerifSyncRecords() int { return len(v.Root.Sub(syncBucketName).Ents) }
+
+// VerifPutStandardCredit stores a mined, unspent standard coin of wallet wid (real encoders), as AddCredits does.
+func (v *VerifStores) VerifPutStandardCredit(wid string, op wire.OutPoint, height uint64, blockHash wire.Hash, amount uint64, scriptHash []byte) {
+	amt, err := massutil.NewAmountFromUint(amount)
+	rt.Assert(err == nil, "harness-amount")
+	c := &credit{outPoint: op, block: &BlockMeta{Height: height, Hash: blockHash}, amount: amt, scriptHash: scriptHash}
+	c.flags.Class = ClassStandardUtxo
+	val, err := valueUnspentCredit(c)
+	rt.Assert(err == nil, "credit-value-encodes")
+	v.Root.Sub(bucketCredits).Set(keyCredit(&op.Hash, op.Index, c.block), val)
+	v.Root.Sub(bucketUnspent).Set(canonicalUnspentKey(wid, &op.Hash, op.Index), valueUnspent(c.block))
+}
